@@ -133,13 +133,14 @@ STREAM_FILES = {
     'synoff': {'ref': 'synoff_v1', 'names': ['synoff_v1', 'synoff_a1']},
     'synnot': {'ref': 'synnot_v1', 'names': ['synnot_v1', 'synnot_a1']},
     'synenc': {'ref': 'synenc_v1', 'names': ['synenc_v1', 'synenc_a1']},
+    'synwild': {'ref': 'synwild_v1', 'names': ['synwild_v1', 'synwild_a1']},
 }
 
 
 def plan(tier):
     items = []
     # synthetic layouts (irregular durations, non-zero first decode time, no tfdt): tiny loops, full K
-    for stream in ('synirr', 'synoff', 'synnot'):
+    for stream in ('synirr', 'synoff', 'synnot', 'synwild'):
         for tmpl in ('hand_made', 'manifest_e', 'manifest_n', 'manifest_a'):
             for opts in ({'start': 'explicit', 'depth': '30'}, {'start': 'explicit', 'depth': '8', 'leeway': '0'},
                          {'start': 'explicit', 'depth': '30', 'timeline': '1'},
